@@ -17,6 +17,7 @@ func init() {
 	zzsv.Register("ZZ_C09_Cancel", ZZ_C09_Cancel)
 	zzsv.Register("ZZ_C09_Finishes", ZZ_C09_Finishes)
 	zzsv.Register("ZZ_C09_CancelByWork", ZZ_C09_CancelByWork)
+	zzsv.Register("ZZ_C09_AlreadyExpired", ZZ_C09_AlreadyExpired)
 }
 
 var zzSpinners = []string{
@@ -127,4 +128,44 @@ func ZZ_C09_CancelByWork(sv *zzsv.T) {
 	sv.Observe("outcome", err != nil, calls)
 	sv.Assert("C09.work.cancelled_run_fails", err != nil)
 	sv.Assert("C09.work.no_call_after_cancel", calls == cancelAt)
+}
+
+// ZZ_C09_AlreadyExpired: an already-expired context prevents execution
+// altogether - also of scripts so short that they would be over at once:
+// no host call is made and Run/Execute return an error, whether the context
+// was given before Prepare only or again afterwards, on the first run and on
+// later ones.
+func ZZ_C09_AlreadyExpired(sv *zzsv.T) {
+	scripts := []string{
+		"t(1); return 1;",
+		"return A;",
+		"function f() { t(1); return 2; } return f();",
+		"foreach x in [1] { t(x); } return 3;",
+		"if (A > 0) { t(A); } return true;",
+	}
+	e := New(scripts[sv.Choice("script", len(scripts))])
+	sv.Note("script", e.Script)
+	a := sv.Int64("A")
+	calls := 0
+	e.AddFunction("t", func(args []object.Object) object.Object {
+		calls++
+		return &object.Void{}
+	})
+	e.SetVariable("A", &object.Integer{Value: a})
+	// (the context is the harness's model of one: done from the very first
+	// look at it; the standard library's cancelCtx is not modelled)
+	ctx := sv.Ctx("cancel_at_poll", 0)
+	e.SetContext(ctx)
+	sv.Assume(e.Prepare() == nil)
+	for run := 0; run < 2; run++ {
+		var err error
+		if sv.Choice("api", 2) == 1 {
+			_, err = e.Run(nil)
+		} else {
+			_, err = e.Execute(nil)
+		}
+		sv.Observe("outcome", err != nil, calls)
+		sv.Assert("C09.expired.run_fails", err != nil)
+		sv.Assert("C09.expired.nothing_executed", calls == 0)
+	}
 }
